@@ -570,6 +570,222 @@ pub fn check_iteration(spec: &Spec, st: &mut Stats) {
     }
 }
 
+// ---------------------------------------------------------------------------
+// C14 over histories: every sequence of sequential calls on ONE graph value
+
+#[derive(Clone, Copy, Debug, PartialEq, Eq)]
+pub enum SeqOp {
+    Iter,
+    IterRev,
+    MapFull,
+    /// `map()` consumed for k items, then dropped
+    MapPartial(usize),
+    Fold,
+    ForEach,
+    TryFoldOk,
+    /// fails at invocation p (0-based)
+    TryFoldFail(usize),
+    TryForEachOk,
+    TryForEachFail(usize),
+    /// a complete `for_each_concurrent_mut` run (default schedule) as part of the history
+    AsyncRun,
+}
+
+impl SeqOp {
+    fn code(&self) -> String {
+        match self {
+            SeqOp::Iter => "iter".into(),
+            SeqOp::IterRev => "iter_rev".into(),
+            SeqOp::MapFull => "map".into(),
+            SeqOp::MapPartial(k) => format!("map_take{k}"),
+            SeqOp::Fold => "fold".into(),
+            SeqOp::ForEach => "for_each".into(),
+            SeqOp::TryFoldOk => "try_fold".into(),
+            SeqOp::TryFoldFail(p) => format!("try_fold_fail{p}"),
+            SeqOp::TryForEachOk => "try_for_each".into(),
+            SeqOp::TryForEachFail(p) => format!("try_for_each_fail{p}"),
+            SeqOp::AsyncRun => "async_run".into(),
+        }
+    }
+
+    fn parse(s: &str) -> Option<SeqOp> {
+        let num = |pre: &str| s.strip_prefix(pre).and_then(|x| x.parse::<usize>().ok());
+        Some(match s {
+            "iter" => SeqOp::Iter,
+            "iter_rev" => SeqOp::IterRev,
+            "map" => SeqOp::MapFull,
+            "fold" => SeqOp::Fold,
+            "for_each" => SeqOp::ForEach,
+            "try_fold" => SeqOp::TryFoldOk,
+            "try_for_each" => SeqOp::TryForEachOk,
+            "async_run" => SeqOp::AsyncRun,
+            _ => {
+                if let Some(k) = num("map_take") {
+                    SeqOp::MapPartial(k)
+                } else if let Some(p) = num("try_fold_fail") {
+                    SeqOp::TryFoldFail(p)
+                } else if let Some(p) = num("try_for_each_fail") {
+                    SeqOp::TryForEachFail(p)
+                } else {
+                    return None;
+                }
+            }
+        })
+    }
+}
+
+fn seq_ops(n: usize) -> Vec<SeqOp> {
+    let mut v = vec![SeqOp::Iter, SeqOp::IterRev, SeqOp::MapFull, SeqOp::Fold, SeqOp::ForEach, SeqOp::TryFoldOk, SeqOp::TryForEachOk, SeqOp::AsyncRun];
+    for k in 0..n {
+        v.push(SeqOp::MapPartial(k));
+        v.push(SeqOp::TryFoldFail(k));
+        v.push(SeqOp::TryForEachFail(k));
+    }
+    v
+}
+
+/// Runs one call; returns (functions invoked in order, error returned).
+fn run_seq_op(g: &mut FnGraph<Node>, op: SeqOp) -> (Vec<usize>, Option<usize>) {
+    match op {
+        SeqOp::Iter => (g.iter().map(|f| f.id).collect(), None),
+        SeqOp::IterRev => (g.iter_rev().map(|f| f.id).collect(), None),
+        SeqOp::MapFull => (g.map(|f| f.id).collect(), None),
+        SeqOp::MapPartial(k) => (g.map(|f| f.id).take(k).collect(), None),
+        SeqOp::Fold => (
+            g.fold(vec![], |mut s, f| {
+                s.push(f.id);
+                s
+            }),
+            None,
+        ),
+        SeqOp::ForEach => {
+            let mut o = vec![];
+            g.for_each(|f| o.push(f.id));
+            (o, None)
+        }
+        SeqOp::TryFoldOk | SeqOp::TryFoldFail(_) => {
+            let fail_at = if let SeqOp::TryFoldFail(p) = op { p } else { usize::MAX };
+            let mut calls = vec![];
+            let r: Result<(), usize> = g.try_fold((), |(), f| {
+                calls.push(f.id);
+                if calls.len() == fail_at.wrapping_add(1) {
+                    Err(f.id)
+                } else {
+                    Ok(())
+                }
+            });
+            (calls, r.err())
+        }
+        SeqOp::TryForEachOk | SeqOp::TryForEachFail(_) => {
+            let fail_at = if let SeqOp::TryForEachFail(p) = op { p } else { usize::MAX };
+            let mut calls = vec![];
+            let r: Result<(), usize> = g.try_for_each(|f| {
+                calls.push(f.id);
+                if calls.len() == fail_at.wrapping_add(1) {
+                    Err(f.id)
+                } else {
+                    Ok(())
+                }
+            });
+            (calls, r.err())
+        }
+        SeqOp::AsyncRun => {
+            let n = g.graph.node_count();
+            let mut cfg = crate::engine_s::RunCfg::plain(crate::engine_s::Api { kind: crate::engine_s::Kind::ForEach, mutable: true, with: false }, n);
+            cfg.imm_choice = false;
+            let r = crate::engine_s::run_on(g, &cfg, vec![]);
+            (r.ev.iter().filter_map(|e| if let crate::exec::Ev::Start(i) = e { Some(*i as usize) } else { None }).collect(), None)
+        }
+    }
+}
+
+/// What C14 says about one call's observation on a graph with built edges `raw`.
+fn seq_op_verdict(n: usize, raw: &[(usize, usize, Edge)], op: SeqOp, calls: &[usize], err: Option<usize>) -> Option<String> {
+    let mut pos = vec![usize::MAX; n];
+    for (p, &i) in calls.iter().enumerate() {
+        if i >= n || pos[i] != usize::MAX {
+            return Some(format!("visited {calls:?}: a function more than once"));
+        }
+        pos[i] = p;
+    }
+    let backward = op == SeqOp::IterRev;
+    for &(a, b, _) in raw {
+        let (first, second) = if backward { (b, a) } else { (a, b) };
+        if pos[second] != usize::MAX && (pos[first] == usize::MAX || pos[first] > pos[second]) {
+            return Some(format!("visited {calls:?}: {second} before {first} although the built graph has the edge {a}->{b}"));
+        }
+    }
+    let (want_len, want_err) = match op {
+        SeqOp::MapPartial(k) => (k.min(n), false),
+        SeqOp::TryFoldFail(p) | SeqOp::TryForEachFail(p) => (p + 1, true),
+        _ => (n, false),
+    };
+    if calls.len() != want_len {
+        return Some(format!("visited {calls:?}: {} functions instead of {want_len}", calls.len()));
+    }
+    if want_err && err != calls.last().copied() {
+        return Some(format!("returned {err:?} after invoking {calls:?}"));
+    }
+    if !want_err && err.is_some() {
+        return Some(format!("returned the error {err:?} although no function failed"));
+    }
+    None
+}
+
+/// Evaluates one history on a freshly built graph; the verdict is about the LAST call.
+pub fn eval_iteration_history(spec: &Spec, ops: &[SeqOp], st: &mut Stats) {
+    let what = format!("iterate_history:{}", ops.iter().map(|o| o.code()).collect::<Vec<_>>().join(","));
+    let Ok(mut g) = catch_quiet(|| timed_build(spec)) else { return };
+    let raw = raw_edges(&g);
+    st.execs += 1;
+    st.transitions += ops.len() as u64;
+    let r = catch_quiet(|| {
+        let mut last = (vec![], None);
+        for &op in ops {
+            last = run_seq_op(&mut g, op);
+        }
+        last
+    });
+    match r {
+        Err(m) => bviol(st, 14, spec, &what, format!("history {what}: panicked: {m}")),
+        Ok((calls, err)) => {
+            let op = *ops.last().expect("non-empty history");
+            if let Some(m) = seq_op_verdict(spec.n, &raw, op, &calls, err) {
+                bviol(st, 14, spec, &what, format!("after the calls {:?} on the same graph value, {} {m}", ops[..ops.len() - 1].iter().map(|o| o.code()).collect::<Vec<_>>(), op.code()));
+            }
+            let h = hash64(&(spec.short(), ops.iter().map(|o| o.code()).collect::<Vec<_>>(), &calls, err));
+            st.state_hashes.insert(h);
+            if ops.len() >= 2 && ops[..ops.len() - 1].iter().any(|o| matches!(o, SeqOp::MapPartial(_) | SeqOp::TryFoldFail(_) | SeqOp::TryForEachFail(_))) {
+                st.nontrivial_hashes.insert(h);
+            }
+        }
+    }
+}
+
+/// Every history of at most `depth` sequential calls on one graph value.
+pub fn check_iteration_histories(spec: &Spec, depth: usize, st: &mut Stats) {
+    let ops = seq_ops(spec.n);
+    let mut stack: Vec<Vec<SeqOp>> = ops.iter().map(|&o| vec![o]).collect();
+    while let Some(h) = stack.pop() {
+        eval_iteration_history(spec, &h, st);
+        if h.len() < depth {
+            for &o in &ops {
+                let mut h2 = h.clone();
+                h2.push(o);
+                stack.push(h2);
+            }
+        }
+    }
+    st.fold_hashes();
+}
+
+pub fn replay_iteration_history(spec: &Spec, what: &str, st: &mut Stats) {
+    let ops: Vec<SeqOp> = what.trim_start_matches("iterate_history:").split(',').filter_map(SeqOp::parse).collect();
+    if !ops.is_empty() {
+        eval_iteration_history(spec, &ops, st);
+    }
+}
+
 /// C17 on one built graph.
 pub fn check_graph_info(spec: &Spec, yaml: bool, st: &mut Stats) {
     let n = spec.n;
@@ -944,6 +1160,32 @@ pub fn sparse_conflict_specs() -> Vec<(String, Spec)> {
     v
 }
 
+/// Declared shapes at sizes around the byte-size thresholds (255..258) and well beyond (300; 513
+/// in the thorough tier): counters, stamps or indices narrowed to `u8` wrap here. Every adjacent
+/// pair of an antichain conflicts in pattern 0, so a single skipped comparison shows.
+pub fn size_threshold_specs(tier: &str) -> Vec<(String, Spec)> {
+    let ks: &[usize] = if tier == "thorough" { &[255, 256, 257, 258, 260, 300, 513] } else { &[256, 257, 300] };
+    let mut v = vec![];
+    for &k in ks {
+        let mut shapes: Vec<(String, usize, Vec<(usize, usize)>)> = vec![(format!("antichain({k})"), k, vec![])];
+        shapes.push((format!("descending_chain_plus_isolated({k})"), k, (0..(k / 2).saturating_sub(1)).map(|i| (i + 1, i)).collect()));
+        for (fam, name) in [(Family::FanOut, "fan_out"), (Family::FanIn, "fan_in"), (Family::StarRev, "star_centre_last")] {
+            let (n, e) = family(fam, k);
+            shapes.push((format!("{name}({k})"), n, e));
+        }
+        let (n, e) = family(Family::Layered(2), k / 2 + 1);
+        shapes.push((format!("layered2({})", k / 2 + 1), n, e));
+        for (name, n, e) in shapes {
+            for p in [0usize, 1, 2, 5] {
+                let mut s = Spec::plain(n, &e);
+                s.decl = (0..n).map(|i| decl_pattern(p, i)).collect();
+                v.push((format!("{name} pattern {p}"), s));
+            }
+        }
+    }
+    v
+}
+
 /// Irregular graphs from an arithmetic rule: edge i -> j (i < j) iff (a*i + j) mod m < t, for
 /// every (m, a, t) of a grid, under three labellings.
 pub fn arithmetic_specs(ns: &[usize], with_decl: bool) -> Vec<(String, Spec)> {
@@ -998,6 +1240,7 @@ pub fn run_declared_families(tier: &str, deadline: Instant, f: &(dyn Fn(&Spec, &
     let n_decl = specs.len();
     specs.extend(many_type_specs());
     specs.extend(sparse_conflict_specs());
+    specs.extend(size_threshold_specs(tier));
     let arith_ns: Vec<usize> = if tier == "thorough" { vec![7, 8, 9, 10, 11, 12, 14, 16, 20, 24, 32, 40, 48] } else { vec![8, 10, 12, 16, 24, 40] };
     specs.extend(arithmetic_specs(&arith_ns, true));
     let t0 = Instant::now();
@@ -1022,7 +1265,7 @@ pub fn run_declared_families(tier: &str, deadline: Instant, f: &(dyn Fn(&Spec, &
     );
     st.capped |= capped;
     let label = format!(
-        "enumerated families: {n_decl} declared shapes (antichain, zigzag, descending chain, stars, fans, trees, layered; 6 access patterns; k in {ks:?}); 31..130 data types in 3 patterns; two writers 1..300 unrelated functions apart; arithmetic irregular DAGs n in {arith_ns:?} x (m,a,t) grid x 3 labellings x 3 access patterns"
+        "enumerated families: {n_decl} declared shapes (antichain, zigzag, descending chain, stars, fans, trees, layered; 6 access patterns; k in {ks:?}); 31..130 data types in 3 patterns; two writers 1..300 unrelated functions apart; declared antichain/chain/fans/star/layered shapes of 256, 257, 300 functions (255..513 thorough); arithmetic irregular DAGs n in {arith_ns:?} x (m,a,t) grid x 3 labellings x 3 access patterns"
     );
     log.push(json!({"space": label, "inputs": st.execs, "completed": !st.capped, "wall_s": t0.elapsed().as_secs_f64()}));
     eprintln!("  [enumerated families, {} inputs] viol={} {}{:.1}s", specs.len(), st.viol_total, if st.capped { "CAPPED " } else { "" }, t0.elapsed().as_secs_f64());
@@ -1122,17 +1365,37 @@ impl RefBuilder {
 }
 
 fn c16_eval(n: usize, calls: &[Call], batch: usize, st: &mut Stats) {
+    c16_eval_mode(n, calls, batch, false, st)
+}
+
+/// `lazy`: functions are added only when a call first needs them (function i together with every
+/// function before it), the rest after the last call - edge calls and `add_fn` interleave.
+fn c16_eval_mode(n: usize, calls: &[Call], batch: usize, lazy: bool, st: &mut Stats) {
     // batch = 0: single calls; batch = N: calls grouped into add_*_edges::<N> where the kinds agree
     let spec = Spec { n, edges: calls.iter().map(|c| (c.from, c.to, c.contains)).collect(), decl: vec![], redeclare: 0 };
-    let what = if batch == 0 { "call_sequence".to_string() } else { format!("call_sequence_batch{batch}") };
+    let what = if lazy {
+        "call_sequence_lazy".to_string()
+    } else if batch == 0 {
+        "call_sequence".to_string()
+    } else {
+        format!("call_sequence_batch{batch}")
+    };
     let r = catch_quiet(|| {
         let mut b = FnGraphBuilder::new();
-        let ids: Vec<FnId> = (0..n).map(|i| b.add_fn(Node::new(i, vec![]))).collect();
+        let mut ids: Vec<FnId> = if lazy { vec![] } else { (0..n).map(|i| b.add_fn(Node::new(i, vec![]))).collect() };
         let mut results: Vec<bool> = vec![];
         if batch == 0 {
             for c in calls {
+                while ids.len() <= c.from.max(c.to) {
+                    let i = ids.len();
+                    ids.push(b.add_fn(Node::new(i, vec![])));
+                }
                 let r = if c.contains { b.add_contains_edge(ids[c.from], ids[c.to]) } else { b.add_logic_edge(ids[c.from], ids[c.to]) };
                 results.push(r.is_ok());
+            }
+            while ids.len() < n {
+                let i = ids.len();
+                ids.push(b.add_fn(Node::new(i, vec![])));
             }
         } else {
             for ch in calls.chunks(batch) {
@@ -1265,6 +1528,49 @@ pub fn run_c16(tier: &str, deadline: Instant, total: &mut Stats, log: &mut Vec<V
         );
         st.capped |= capped;
         let label = format!("all call sequences over n={n} functions ({k} distinct calls incl. self edges), length <= {maxlen}, single and batch forms");
+        log.push(json!({"space": label, "sequences": st.execs, "completed": !st.capped, "wall_s": t0.elapsed().as_secs_f64()}));
+        eprintln!("  [{label}] evaluated={} viol={} {}{:.1}s", st.execs, st.viol_total, if st.capped { "CAPPED " } else { "" }, t0.elapsed().as_secs_f64());
+        total.merge(st);
+    }
+    // sizes around the power-of-two thresholds: every sequence over five representative functions
+    // (the first three and the last two), functions added up front and added lazily between calls
+    let sizes: Vec<(usize, usize)> = if tier == "thorough" {
+        vec![(5, 4), (8, 3), (9, 4), (10, 3), (16, 3), (17, 3), (18, 3), (32, 3), (33, 3), (34, 3), (64, 3), (65, 3), (66, 3), (129, 3), (257, 2)]
+    } else {
+        vec![(5, 3), (9, 3), (17, 3), (33, 3), (65, 3), (129, 2)]
+    };
+    for (n, maxlen) in sizes {
+        let reps = [0usize, 1, 2, n - 2, n - 1];
+        let alphabet: Vec<Call> = reps.iter().flat_map(|&a| reps.iter().flat_map(move |&b| [false, true].into_iter().map(move |c| Call { from: a, to: b, contains: c }))).collect();
+        let k = alphabet.len();
+        let t0 = Instant::now();
+        let mut st = Stats::default();
+        let alphabet = &alphabet;
+        let capped = par_for(
+            k,
+            deadline,
+            Stats::default,
+            |i, local: &mut Stats| {
+                fn rec(alphabet: &[Call], seq: &mut Vec<usize>, maxlen: usize, n: usize, local: &mut Stats) {
+                    let calls: Vec<Call> = seq.iter().map(|&c| alphabet[c]).collect();
+                    c16_eval_mode(n, &calls, 0, false, local);
+                    c16_eval_mode(n, &calls, 0, true, local);
+                    if seq.len() < maxlen {
+                        for c in 0..alphabet.len() {
+                            seq.push(c);
+                            rec(alphabet, seq, maxlen, n, local);
+                            seq.pop();
+                        }
+                    }
+                }
+                let mut seq = vec![i];
+                rec(alphabet, &mut seq, maxlen, n, local);
+                local.fold_hashes();
+            },
+            |l| st.merge(l),
+        );
+        st.capped |= capped;
+        let label = format!("n={n} functions: all call sequences of length <= {maxlen} over the representative functions {reps:?} ({k} distinct calls), functions added up front / lazily between the calls");
         log.push(json!({"space": label, "sequences": st.execs, "completed": !st.capped, "wall_s": t0.elapsed().as_secs_f64()}));
         eprintln!("  [{label}] evaluated={} viol={} {}{:.1}s", st.execs, st.viol_total, if st.capped { "CAPPED " } else { "" }, t0.elapsed().as_secs_f64());
         total.merge(st);
@@ -1504,6 +1810,20 @@ pub fn run_build_props(prop: u8, tier: &str, deadline: Instant, total: &mut Stat
                 run_build_space(sp, deadline, &f, total, log);
             }
             run_declared_families(tier, deadline, &f, total, log);
+            // histories of sequential calls on one graph value
+            let plan: Vec<(usize, usize)> = if thorough { vec![(0, 3), (1, 5), (2, 5), (3, 4), (4, 3), (5, 2)] } else { vec![(0, 3), (1, 4), (2, 4), (3, 4), (4, 2)] };
+            for (n, depth) in plan {
+                let specs: Vec<Spec> = if n <= 4 { crate::props_run::shapes_upto(n, n, false) } else { crate::graphs::topo_dag_specs(n) };
+                let t0 = Instant::now();
+                let mut st = Stats::default();
+                let specs_ref = &specs;
+                let capped = par_for(specs.len(), deadline, Stats::default, |i, local: &mut Stats| check_iteration_histories(&specs_ref[i], depth, local), |l| st.merge(l));
+                st.capped |= capped;
+                let label = format!("histories: every sequence of <= {depth} sequential calls (iter, iter_rev, map full / taken k, fold, for_each, try_fold / try_for_each ok / failing at every position, an async run) on one graph value, {} shapes on {n} functions", specs.len());
+                log.push(json!({"space": label, "histories": st.execs, "completed": !st.capped, "wall_s": t0.elapsed().as_secs_f64()}));
+                eprintln!("  [{label}] histories={} viol={} {}{:.1}s", st.execs, st.viol_total, if st.capped { "CAPPED " } else { "" }, t0.elapsed().as_secs_f64());
+                total.merge(st);
+            }
         }
         17 => {
             let f = |s: &Spec, st: &mut Stats| check_graph_info(s, true, st);
@@ -1566,5 +1886,5 @@ pub fn run_build_props(prop: u8, tier: &str, deadline: Instant, total: &mut Stat
 pub fn replay_c16(spec: &Spec, what: &str, st: &mut Stats) {
     let calls: Vec<Call> = spec.edges.iter().map(|&(a, b, c)| Call { from: a, to: b, contains: c }).collect();
     let batch = what.strip_prefix("call_sequence_batch").and_then(|s| s.parse().ok()).unwrap_or(0);
-    c16_eval(spec.n, &calls, batch, st);
+    c16_eval_mode(spec.n, &calls, batch, what == "call_sequence_lazy", st);
 }
